@@ -45,7 +45,9 @@ def find_validator(fx):
         if "u32" not in fn.get("output", "") or "Result" not in fn.get("output", ""):
             continue
         names = [F.callee(c) or "" for c, _ in F.calls(hir["value"])]
-        if any(n.endswith(f"::is::<{JUMPDEST_TY}>") for n in names) and any("ExecutionThread::instruction" in n for n in names):
+        # semantic anchor: the function that folds its operand to a constant, fetches the instruction at the resulting offset
+        # and answers with that offset (whether it still tests the instruction's type is what R08.1 then checks)
+        if any(n.endswith("::constant_fold") for n in names) and any("ExecutionThread::instruction" in n and not n.endswith("instruction_pointer") for n in names):
             out.append(b)
     return out
 
